@@ -295,8 +295,83 @@ def path_src(path, fields=("x", "y")):
     return out
 
 
+# ---- statements whose TARGET is computed from variables while the right-hand side changes those variables: the slot
+#      written is the one the index / bound / key expressions named before the right-hand side ran
+def _ints(c):
+    return [int(x[1]) for x in c[1]] if kind(c) == "l" and all(kind(x) == "i" for x in c[1]) else None
+
+
+def _scr_assign_c(st):          # a[c] = (c = 1; 7)
+    a, c = _ints(st["a"]), st["c"]
+    if a is None or kind(c) != "i" or pyidx(len(a), int(c[1])) is None:
+        return RAISE
+    a[pyidx(len(a), int(c[1]))] = 7
+    st["a"], st["c"] = L(*[I(x) for x in a]), I(1)
+    return st
+
+
+def _scr_pop_pop(st):           # a[pop b] = pop b
+    a, b = _ints(st["a"]), _ints(st["b"])
+    if a is None or b is None or len(b) < 2 or pyidx(len(a), b[-1]) is None:
+        return RAISE
+    i, v = b[-1], b[-2]
+    a[pyidx(len(a), i)] = v
+    st["a"], st["b"] = L(*[I(x) for x in a]), L(*[I(x) for x in b[:-2]])
+    return st
+
+
+def _scr_op_c(st):              # a[c] += (c = 2; 5)
+    a, c = _ints(st["a"]), st["c"]
+    if a is None or kind(c) != "i" or pyidx(len(a), int(c[1])) is None:
+        return RAISE
+    a[pyidx(len(a), int(c[1]))] += 5
+    st["a"], st["c"] = L(*[I(x) for x in a]), I(2)
+    return st
+
+
+def _scr_every_c(st):           # every a[0:c] = (c = 3; 5)
+    a, c = _ints(st["a"]), st["c"]
+    if a is None or kind(c) != "i":
+        return RAISE
+    for j in range(len(a))[0:int(c[1])]:
+        a[j] = 5
+    st["a"], st["c"] = L(*[I(x) for x in a]), I(3)
+    return st
+
+
+def _scr_b0(st):                # a[b[0]] = (b[0] = 2; 9)
+    a, b = _ints(st["a"]), _ints(st["b"])
+    if a is None or not b or pyidx(len(a), b[0]) is None:
+        return RAISE
+    a[pyidx(len(a), b[0])] = 9
+    b[0] = 2
+    st["a"], st["b"] = L(*[I(x) for x in a]), L(*[I(x) for x in b])
+    return st
+
+
+def _scr_set(name, val):
+    def f(st):
+        st[name] = copy.deepcopy(val)
+        return st
+    return f
+
+
+SCRIPTS = {
+    "a[c] = (c = 1; 7)": _scr_assign_c, "a[pop b] = pop b": _scr_pop_pop, "a[c] += (c = 2; 5)": _scr_op_c, "every a[0:c] = (c = 3; 5)": _scr_every_c,
+    "a[b[0]] = (b[0] = 2; 9)": _scr_b0, "c = 0": _scr_set("c", ["i", "0"]), "c = 1": _scr_set("c", ["i", "1"]), "c = 2": _scr_set("c", ["i", "2"]),
+    "c = (-1)": _scr_set("c", ["i", "-1"]), "b = [0, 1, 2]": _scr_set("b", ["l", [["i", "0"], ["i", "1"], ["i", "2"]]]),
+    "a = [10, 20, 30]": _scr_set("a", ["l", [["i", "10"], ["i", "20"], ["i", "30"]]]),
+}
+
+
+def menu_dynamic():
+    return [("script", src) for src in SCRIPTS]
+
+
 def stmt_src(s):
     k = s[0]
+    if k == "script":
+        return s[1]
     if k == "capture":      # the VALUE of the variable goes into a closure (as an argument): later mutations must not reach it
         return "k = (\\v -> \\-> v)(%s%s)" % (s[1], path_src(s[2]))
     if k == "assign":
@@ -360,6 +435,8 @@ def model_apply(store, s):
     """-> new store or RAISE"""
     st = copy.deepcopy(store)
     k = s[0]
+    if k == "script":
+        return SCRIPTS[s[1]](st)
     if k in ("assign", "op", "every", "everyop") and through_missing_default(st[s[1]], s[2]):
         return SKIP
     if k == "swap" and (through_missing_default(st[s[1]], s[2]) or through_missing_default(st[s[3]], s[4])):
@@ -670,6 +747,8 @@ SCENARIOS = {
     "streams": {"pre": ["a := 1 to 3", "b := a", "c := [a, a]"],
                 "store": {"a": ["S", "1 til 4 by 1", [I(1), I(2), I(3)], "end"], "b": ["S", "1 til 4 by 1", [I(1), I(2), I(3)], "end"],
                           "c": L(["S", "1 til 4 by 1", [I(1), I(2), I(3)], "end"], ["S", "1 til 4 by 1", [I(1), I(2), I(3)], "end"])}, "menu": menu_stream},
+    "dynamic-index": {"pre": ["a := [10, 20, 30]", "b := [0, 1, 2]", "c := 0"],
+                      "store": {"a": L(I(10), I(20), I(30)), "b": L(I(0), I(1), I(2)), "c": I(0)}, "menu": menu_dynamic},
     "mixed": {"pre": ["a := [{1: [1]}, 0]", "b := a", "c := a[0]"],
               "store": {"a": L(["d", [[I(1), L(I(1))]]], I(0)), "b": L(["d", [[I(1), L(I(1))]]], I(0)), "c": ["d", [[I(1), L(I(1))]]]}, "menu": menu_mixed},
 }
